@@ -844,7 +844,7 @@ func genLocks(dir string) {
 	rank := lkRanks(locks)
 	var sb strings.Builder
 	sb.WriteString("-- GENERATED by kvfacts (extract_locks.go) from /repo's working tree on every run. Do not edit.\n")
-	sb.WriteString("import Kevo.Model.ConcTable\nnamespace Kevo.Gen.Locks\nopen Kevo.Conc\n\n")
+	sb.WriteString("import Kevo.Model.ConcTable\nnamespace Kevo.Gen.Locks\nopen Kevo.LConc\n\n")
 	q := func(xs []string) string {
 		var o []string
 		for _, x := range xs {
